@@ -196,6 +196,7 @@ class Guillot2010(TemperatureProfile):
         temperature.write_scalar('kappa_v1', self.kappa_v1)
         temperature.write_scalar('kappa_v2', self.kappa_v2)
         temperature.write_scalar('alpha', self.alpha)
+        temperature.write_scalar('T_int', self.T_int)
         return temperature
 
     @classmethod
